@@ -605,6 +605,17 @@ class Interp:
                 except TypeError as exc:
                     raise AbsRaise(f"TypeError: {exc}") from exc
             return run
+        def mapping_proxy(m: Any) -> Any:
+            import types as _types
+            if not isinstance(m, dict) or any(self._has_abs(k_) for k_ in m):
+                raise AnalysisError("ABSINT", "MappingProxyType over a mapping keyed by abstract objects outside fragment")
+            return _types.MappingProxyType(m)              # a read-only *view*: later changes of m show through
+
+        def chain_map(*maps: Any) -> Any:
+            if any(not isinstance(m, dict) or any(self._has_abs(k_) for k_ in m) for m in maps):
+                raise AnalysisError("ABSINT", "ChainMap over mappings keyed by abstract objects outside fragment")
+            return _c.ChainMap(*maps)
+
         d = {
             "copy.deepcopy": deepcopy,
             "copy.copy": shallow,
@@ -629,7 +640,7 @@ class Interp:
             "logging.exception": lambda *a, **k: None,
             "logging.critical": lambda *a, **k: None,
             "warnings.warn": lambda *a, **k: None,
-            "collections.OrderedDict": lambda *a, **k: dict(*a, **k),
+            "collections.OrderedDict": lambda *a, **k: _c.OrderedDict(*a, **k),
             "collections.Counter": counter,
             "collections.defaultdict": defaultdict,
             "collections.deque": lambda xs=(), maxlen=None: ADeque(self.iterate(xs)) if maxlen is None else
@@ -651,7 +662,7 @@ class Interp:
             "fractions.Fraction": number_ctor("fractions", "Fraction"),
             "math.prod": prod,
             "itertools.combinations": lambda xs, k: iter(list(_it.combinations(list(self.iterate(xs)), k))),
-            "itertools.product": lambda *xs: iter(list(_it.product(*[list(self.iterate(x)) for x in xs]))),
+            "itertools.product": lambda *xs, repeat=1: iter(list(_it.product(*[list(self.iterate(x)) for x in xs], repeat=repeat))),
             "itertools.chain": lambda *xs: _it.chain(*[self.iterate(x) for x in xs]),     # lazy: an operand may be endless
             "itertools.count": lambda start=0, step=1: _it.count(start, step),
             "itertools.cycle": lambda xs: _it.cycle(list(self.iterate(xs))),
@@ -680,6 +691,9 @@ class Interp:
             "itertools.batched": lambda xs, k: iter([tuple(b_) for b_ in _batched(list(self.iterate(xs)), k)]),
             "itertools.tee": lambda xs, k=2: tuple(iter(list(c_)) for c_ in [list(self.iterate(xs))] * k),
             "types.MethodType": lambda f, obj: self._bind_callable(f, obj),
+            "types.MappingProxyType": mapping_proxy,
+            "types.SimpleNamespace": lambda **k: AObj("SimpleNamespace", **k),
+            "collections.ChainMap": chain_map,
             "sys.intern": lambda x: x,
             "abc.update_abstractmethods": lambda c: c,
             "functools.update_wrapper": lambda w, f, *a, **k: self._copy_wrapper_attrs(w, f),
@@ -1324,6 +1338,9 @@ class Interp:
                 if isinstance(obj, dict):
                     idx = self.canon_key(obj, idx)
                 obj[idx] = v
+            elif type(obj).__name__ == "mappingproxy" or isinstance(obj, (tuple, str, frozenset)):
+                raise AbsRaise(f"TypeError: '{type(obj).__name__}' object does not support item assignment",
+                               loc(fi.unit.path, t) if fi else "")
             else:
                 raise AnalysisError("ABSINT", f"subscript store outside fragment: {src(t)}")
         else:
@@ -1362,7 +1379,8 @@ class Interp:
             except AnalysisError:
                 seq = sorted(v, key=lambda x: id(x))
             return seq if self.set_order == "asc" else list(reversed(seq))
-        if isinstance(v, (list, tuple, set, frozenset, dict, str, range)) or hasattr(v, "__next__"):
+        if isinstance(v, (list, tuple, set, frozenset, dict, str, range)) or hasattr(v, "__next__") or \
+                (type(v).__name__ in ("mappingproxy", "ChainMap") and type(v).__module__ in ("builtins", "collections")):
             return v
         if isinstance(v, type({}.keys())) or isinstance(v, type({}.values())) \
                 or isinstance(v, type({}.items())):
@@ -2336,6 +2354,13 @@ class Interp:
                 return getattr(obj, attr)
             except AttributeError as exc:
                 raise AbsRaise(f"AttributeError: {exc}", where) from exc
+        if type(obj).__name__ in ("mappingproxy", "ChainMap") and type(obj).__module__ in ("builtins", "collections"):
+            # read-only views over plain-keyed dicts (the constructor stand-ins check the keys)
+            if attr in ("get", "keys", "values", "items", "copy", "maps", "parents", "new_child", "__contains__", "__getitem__",
+                        "__len__", "__iter__"):
+                return getattr(obj, attr)
+            raise AbsRaise(f"AttributeError: '{type(obj).__name__}' object has no attribute '{attr}'", where) \
+                if not hasattr(obj, attr) else AnalysisError("ABSINT", f"{type(obj).__name__}.{attr} outside fragment", where)
         if isinstance(obj, AGen) and attr in ("send", "close", "__next__", "__iter__", "throw"):
             if attr == "throw":
                 def throw_(exc: Any, *rest: Any) -> Any:
@@ -2419,6 +2444,10 @@ class Interp:
             if hook is not None:
                 return hook(*args, **kwargs)
             self.ensure_built(f.ci)
+            missing = self._abstract_methods(f.ci)
+            if missing:
+                raise AbsRaise(f"TypeError: Can't instantiate abstract class {f.ci.name} without an implementation for abstract "
+                               f"method{'s' if len(missing) > 1 else ''} {', '.join(repr(m_) for m_ in missing)}", where)
             if self.pm.is_enum(f.ci) and len(args) == 1:
                 if isinstance(args[0], EnumVal) and args[0].cls == f.ci.name:
                     return args[0]
@@ -2665,7 +2694,7 @@ class Interp:
                 return OrdInt(ln, tag[0], tag[1]) if tag else ln
             if hasattr(v, "__next__") or isinstance(v, (int, float)) or v is None:
                 raise AbsRaise(f"TypeError: object of type '{type(v).__name__}' has no len()", where)
-            if isinstance(v, (bytes, bytearray, range)) or type(v).__name__ in ("dict_values", "dict_items", "Counter", "deque"):
+            if isinstance(v, (bytes, bytearray, range)) or type(v).__name__ in ("dict_values", "dict_items", "Counter", "deque", "mappingproxy", "ChainMap"):
                 return len(v)
             raise AnalysisError("ABSINT", f"len() of {type(v).__name__}", where)
         if name == "issubclass":
@@ -2956,6 +2985,13 @@ class Interp:
             except (TypeError, ValueError, OverflowError) as exc:
                 raise AbsRaise(f"{type(exc).__name__}: {exc}", where) from exc
         if name == "print":
+            target = kwargs.get("file")
+            if target is not None:
+                sep, end = kwargs.get("sep", " "), kwargs.get("end", "\n")
+                text = ("" if sep is None else sep if isinstance(sep, str) else " ").join(self.to_str(a) for a in args) + \
+                    ("\n" if end is None else end)
+                wnode = ast.Attribute(value=ast.Name(id="file", ctx=ast.Load()), attr="write", ctx=ast.Load())
+                self.apply_value(self.getattr(target, "write", wnode, None), [text], {}, n, where, None)
             return None
         if name == "reversed":
             return iter(list(reversed(list(self.iterate(args[0])))))
@@ -3333,7 +3369,53 @@ class Interp:
                 if isinstance(cv, AObj) and self.special(cv, "__set__") is not None:
                     self.apply_value(self.special(cv, "__set__"), [cv, obj, v], {}, ast.Constant(value=None), where, None)
                     return
+        if self.pm.has_cls(obj._cls) and not attr.startswith("_frozen") and attr not in ("_complete", "_record"):
+            allowed = self._slots_of(self.pm.cls(obj._cls))
+            if allowed is not None and attr not in allowed:
+                raise AbsRaise(f"AttributeError: '{obj._cls}' object has no attribute '{attr}'", where)
         obj._f[attr] = v
+
+    def _abstract_methods(self, ci: ClassInfo) -> list[str]:
+        """Names an ABC still leaves abstract (abc.ABCMeta refuses to instantiate such a class)."""
+        mro = self.pm.mro(ci)
+        if not any(b.split(".")[-1] in ("ABC", "ABCMeta") for c in mro for b in c.bases) and \
+                not any(k.arg == "metaclass" and ast.unparse(k.value).split(".")[-1] == "ABCMeta" for c in mro for k in c.node.keywords):
+            return []
+        store = GLOBAL_STATE["class_attrs"]
+        defined: set[str] = set()
+        out: list[str] = []
+        for c in mro:
+            for nm, fi_ in c.methods.items():
+                base_nm = nm.split(".")[0]
+                if base_nm in defined:
+                    continue
+                if any(d_.split(".")[-1] == "abstractmethod" for d_ in fi_.decorators()) and (c.qual, base_nm) not in store:
+                    out.append(base_nm)
+            defined |= {nm.split(".")[0] for nm in c.methods} | set(c.class_attrs) | \
+                {k[1] for k in store if isinstance(k, tuple) and len(k) >= 2 and k[0] == c.qual and isinstance(k[1], str)}
+        return sorted(set(out))
+
+    def _slots_of(self, ci: ClassInfo) -> Optional[set[str]]:
+        """The attribute names an instance can hold when every class of the MRO declares __slots__ (None: instances have
+        a __dict__, any name can be stored)."""
+        names: set[str] = set()
+        for c in self.pm.mro(ci):
+            if "__slots__" not in c.class_attrs:
+                dec = [ast.unparse(d_) for d_ in c.node.decorator_list]
+                if any("slots=True" in d_.replace(" ", "") for d_ in dec):
+                    names |= {st.target.id for st in c.node.body if isinstance(st, ast.AnnAssign) and isinstance(st.target, ast.Name)}
+                    continue
+                return None
+            sl = self.class_attr(c, "__slots__")
+            sl = [sl] if isinstance(sl, str) else list(sl) if isinstance(sl, (list, tuple, set, frozenset, dict)) else None
+            if sl is None or "__dict__" in sl:
+                return None
+            names |= set(sl)
+        for c in self.pm.mro(ci):
+            for b in c.bases:
+                if self.pm.resolve_base(c, b) is None and b.split(".")[-1].split("[")[0] not in ("object", "Generic", "Protocol"):
+                    return None                            # a base outside the program model: its instances may have a __dict__
+        return names
 
     def _bind_callable(self, f: Any, obj: Any) -> Any:
         fn = lambda *a, **k: self.apply_value(f, [obj] + list(a), dict(k), ast.Constant(value=None), "", None)  # noqa: E731
